@@ -1,8 +1,9 @@
 """C08 - explicit error handling.
 
-proof        : props/C08.v (refuted in four ways on the code as it is [D19 D50 D51 D52], handle_restores
-               refuted / proved for the repaired threading, soundness of the repaired threading for all
-               programs, outside_known, only_exceptions_declared, has_parent_sound)
+proof        : props/C08.v (the code = mode `restored`: refuted by method calls [D19]; sound for every program
+               without raising method calls, where it coincides with the demanded rule set; handle_restores;
+               only_exceptions_declared; has_parent_sound; the three leaks of the rule set before the repair
+               c08_handle_restores [D50 D51 D52, fixed] kept as statements about mode `as_is`)
 tie          : verdict of the model == verdict of mamba_to_python on the rendered skeleton: every function
                body up to a size bound over an alphabet of raises, calls, handles x declared sets x three
                hierarchies of depth <= 3, + random larger programs
@@ -16,10 +17,11 @@ import itertools
 from .common import Check, build_harness
 from . import scope as S
 
-THEOREMS = ["C08_sound_refuted", "C08_method_raises_unchecked", "C08_leak_after_handle",
-            "C08_arm_protected_by_own_handle", "C08_top_level_handle_leaks_into_functions",
-            "C08_handle_restores_refuted", "C08_handle_restores_strict", "C08_sound_strict",
-            "C08_sound_outside_known", "C08_only_exceptions_declared", "C08_has_parent_sound"]
+THEOREMS = ["C08_sound_refuted", "C08_method_raises_unchecked", "C08_sound_outside_known",
+            "C08_restored_is_repaired_outside_known", "C08_sound_strict", "C08_handle_restores",
+            "C08_handle_restores_any_restoring_mode", "C08_only_exceptions_declared", "C08_has_parent_sound",
+            "C08_old_leak_after_handle", "C08_old_arm_protected_by_own_handle",
+            "C08_old_top_level_handle_leaks_into_functions", "C08_old_handle_restores_refuted"]
 
 
 def bodies(quick, rng):
@@ -112,7 +114,8 @@ def run(tier, replay=None):
     else:
         cases, n_ex = cases_for(ck, quick)
     recs = S.evaluate(cases, ck.log)
-    st = S.correspondence(ck, recs, "Scope.verdict_program vs mamba_to_python (C08 stream)")
+    st = S.correspondence(ck, recs, f"Scope verdict (mode {S.IMPL_MODE}) vs mamba_to_python (C08 stream)",
+                          need_discriminating=0 if replay else 50)
 
     bad = S.oracle_selftest()
     if bad:
